@@ -702,6 +702,7 @@ def san_runs(tier, seed, fl, scale=1.0, with_expr=True, with_examples=True):
         RunSpec("pool", "d", fl, n(640, 12000)),
         RunSpec("pool", "Q", fl, n(192, 3000)),
         RunSpec("ops", "d", fl, n(60000, 600000)),
+        RunSpec("arith", "d", fl, n(3360, 100000)),
         RunSpec("grids", "d", fl, n(80000, 1000000)),
         RunSpec("access", "d", fl, access_cases(q(tier, 7, 10)),
                 params={"maxn": q(tier, 7, 10)}),
@@ -849,7 +850,8 @@ def c16_runs(tier, seed):
     # the functional drivers report C16 as well (same oracle, other workloads)
     runs += [RunSpec("gen", "d", "plain", q(tier, 16000, 400000)),
              RunSpec("ops", "d", "plain", q(tier, 60000, 3000000)),
-             RunSpec("pool", "d", "plain", q(tier, 640, 60000))]
+             RunSpec("pool", "d", "plain", q(tier, 640, 60000)),
+             RunSpec("arith", "d", "plain", q(tier, 6720, 800000))]
     runs += expr_runs(tier, seed, scalars=("d",))
     if tier == "thorough":
         for sc in ("f", "ld"):
@@ -1065,6 +1067,8 @@ def pool_runs(tier, seed, flavours=("plain",), scalars=("Q", "d")):
 
 def c03_runs(tier, seed):
     runs = pool_runs(tier, seed)
+    runs += [RunSpec("arith", "Q", "plain", q(tier, 3360, 400000)),
+             RunSpec("arith", "d", "plain", q(tier, 6720, 800000))]
     if tier == "thorough":
         runs += [RunSpec("pool", "f", "plain", 20000),
                  RunSpec("pool", "ld", "plain", 20000),
@@ -1076,7 +1080,11 @@ def c03_runs(tier, seed):
 reg(Spec(
     "C03", "spline arithmetic == pointwise arithmetic of denotations",
     c03_runs,
-    rule=POOL_RULE + "C03 oracle: denote(result) == model_op(shadows of the "
+    rule=POOL_RULE + "A single-shot sweep (drv_arith) adds every order pair "
+         "with max(order) in 5..8 (56 pairs; + - * += -= c*a a/c -a, "
+         "cross-order assignment over an existing value, linearCombination) "
+         "in the 12 placements, one case in eight on a grid of 65..130 "
+         "points. C03 oracle: denote(result) == model_op(shadows of the "
          "operands) as polynomials on every interval of the whole grid "
          "(equality for Q, C16 bound for floating types); the shadow of an "
          "in-place target is updated by the model so drift over a history is "
@@ -1088,7 +1096,9 @@ reg(Spec(
                  "add", "sub", "mul", "add-assign", "sub-assign", "scalar-left",
                  "scalar-right", "scalar-div", "negate", "mul-assign",
                  "div-assign", "mul-assign-alias", "cross-order-assign",
-                 "linear-combination")] + ["scalar:zero"],
+                 "linear-combination")] + ["scalar:zero", "grid:large",
+                                          "orders:8,8", "orders:0,5",
+                                          "checked:mul", "checked:sub-assign"],
     assumptions=[DYADIC, MODEL, "orders 0..4 in the pool (0..6 thorough); "
                  "products up to order 8 are checked but not stored"],
     evaluations=["c03:checked:" + k for k in (
